@@ -26,6 +26,7 @@ pub fn property() -> Property {
 fn gens(tier: Tier) -> Vec<Gen> {
     vec![
         Gen { name: "everyoffset", count: everyoffset_count(), exhaustive: true, run: run_everyoffset },
+        Gen { name: "read_vectored-everyoffset", count: (0..N_FIXED).map(|i| fixed_span(i) * 2).sum(), exhaustive: true, run: run_vectored },
         Gen { name: "write_to-everyoffset", count: (0..N_FIXED).map(|i| fixed_span(i) * 4).sum(), exhaustive: true, run: run_write_to },
         Gen { name: "random", count: tier.pick(3_000, 300_000), exhaustive: false, run: run_random },
         Gen { name: "large", count: tier.pick(150, 5_000), exhaustive: false, run: run_large },
@@ -52,6 +53,9 @@ const READ_SIZES: [usize; 6] = [1, 2, 7, 4096, 1 << 20, 65536];
 /// pseudo read sizes selecting `Response::write_to` / `split().2.write_to` instead of a read loop
 const WRITE_TO: usize = usize::MAX;
 const WRITE_TO_SPLIT: usize = usize::MAX - 1;
+/// pseudo read size selecting read_vectored with a first buffer exactly as long as what has
+/// arrived and a second one behind it
+const VECTORED: usize = usize::MAX - 2;
 
 pub fn run_case(ctx: &mut Ctx, rng: &mut Rng, c: &Case) {
     let b = build_response("HTTP/1.1 200 OK", &[], c.framing, &c.payload, &c.sizes, &c.styles, b"");
@@ -155,11 +159,20 @@ pub fn run_case(ctx: &mut Ctx, rng: &mut Rng, c: &Case) {
     }
     // (b) everything available can be read without blocking
     let mut delivered: Vec<u8> = Vec::new();
-    let mut buf = vec![0u8; c.read_size];
+    let vectored = c.read_size == VECTORED;
+    let mut buf = vec![0u8; if vectored { available.max(1) + 32 } else { c.read_size }];
     let mut reads = 0usize;
     let mut short_reads = 0usize;
     while delivered.len() < available {
-        let res = resp.read(&mut buf);
+        let res = if vectored {
+            // [exactly the bytes still available][32 more]: filling the first buffer is a complete answer
+            let first = (available - delivered.len()).max(1);
+            let (a, b) = buf.split_at_mut(first);
+            let mut bufs = [std::io::IoSliceMut::new(a), std::io::IoSliceMut::new(&mut b[..32])];
+            resp.read_vectored(&mut bufs)
+        } else {
+            resp.read(&mut buf)
+        };
         reads += 1;
         let blocked = world.trace(0).blocked_reads;
         match res {
@@ -644,4 +657,23 @@ fn run_text_reader(ctx: &mut Ctx, _rng: &mut Rng, index: u64) {
     if available > 0 {
         ctx.nontrivial(format!("tr{index}").as_bytes());
     }
+}
+
+fn run_vectored(ctx: &mut Ctx, rng: &mut Rng, index: u64) {
+    let mut idx = index;
+    let mut bi = 0;
+    loop {
+        let n = fixed_span(bi) * 2;
+        if idx < n {
+            break;
+        }
+        idx -= n;
+        bi += 1;
+    }
+    let (framing, payload, sizes, styles) = fixed(bi);
+    let b = build_response("HTTP/1.1 200 OK", &[], framing, &payload, &sizes, &styles, b"");
+    let off = (idx / 2) as usize;
+    ctx.count("read_vectored_histories", 1);
+    let c = Case { framing, payload, sizes, styles, pause_at: b.head_len + off, seg_class: (idx % 2) as u8, read_size: VECTORED };
+    run_case(ctx, rng, &c);
 }
